@@ -843,6 +843,9 @@ package rapid
 //@   ensures [C06] implies(result3 == nil, result0 == now(split)[0] && result1 == parseUint(now(split)[1], 10))
 //@   ensures [C06] implies(result3 == nil, forall(k, 1, len(result2)+1, result2[k-1] == parseUint(now(data)[k], 0)))
 //@   modifies ioFailed, fsClosed
+//   The file is split into lines by a bufio.Scanner - the only reader whose behaviour the assumed dependency contracts
+//   describe (a rewrite with another reader is outside what this contract can vouch for: reported as not bindable).
+//@   at bufio.NewScanner#0 assert [C06,C17] arg0 != nil
 //@   at os.Open#0 set ioFailed = result1 != nil
 //@   at scanner.Err#0 set ioFailed = ioFailed || result != nil
 //@   at strconv.ParseUint#0 set ioFailed = ioFailed || result1 != nil
@@ -1441,14 +1444,21 @@ package rapid
 //@   loop 1 invariant [C01,C05] shrInv(s) && flags.debugvis == old(flags.debugvis) && fresh(arr(groups)) && arr(groups) != arr(s.rec.groups)
 
 // The condition callback that minimizeBlocks hands to minimize: it builds the candidate as a fresh copy.
+// acceptedG: verdict of the accept call inside the minimizeBlocks literal
+//@ ghost acceptedG Bool
+
 //@ func (*shrinker).minimizeBlocks$1
 //@   noframe "runs the property through accept"
 //@   nosafety "index arithmetic of the pass is not under proof"
 //@   assumes-pre !flags.debugvis
+//   What the literal tells minimize about a candidate is accept's verdict on exactly that candidate (C12: minimize is
+//   exact for truthful, monotone conditions; a "yes" remembered from an earlier candidate makes it stop short).
+//@   at s.accept#0 set acceptedG = result
+//@   ensures [C12] result == acceptedG
 //@   requires [C01,C05] shrInv(s)
 //@   ensures [C01,C05] shrInv(old(s)) && flags.debugvis == old(flags.debugvis)
 //@   panics testError [C01,C05]: flags.debugvis == old(flags.debugvis)
-//@   modifies heap, drawn, lockmode, cancelled, cmpAt, lessAt, propFalsified, cleanupSkipped, discards, cleanupFalsified, cbFalsified
+//@   modifies heap, drawn, lockmode, cancelled, cmpAt, lessAt, propFalsified, cleanupSkipped, discards, cleanupFalsified, cbFalsified, acceptedG
 
 //@ func (*shrinker).minimizeBlocks
 //@   trusted "follows from the contract of its function literal (proved above: the candidate is a fresh copy, the invariant is kept) and from minimize calling nothing but that literal"
